@@ -949,6 +949,17 @@ def snap_map(mm, depth=0):
     out = {"aw": mm.addr_width, "dw": mm.data_width, "al": mm.alignment,
            "res": [(id(r), tuple(n), a, e) for r, n, (a, e) in mm.resources()],
            "win": [(id(w), None if n is None else tuple(n), a, e, rt) for w, n, (a, e, rt) in mm.windows()]}
+    # is the map still open to additions?  asked without changing it: a request that is refused either way --
+    # ValueError from the frozen check that comes first, TypeError for the non-component otherwise
+    try:
+        mm.add_resource(object(), name="probe", size=1)
+        out["open"] = "accepted an object that is not a component"
+    except ValueError:
+        out["open"] = False
+    except TypeError:
+        out["open"] = True
+    except Exception as e:
+        out["open"] = type(e).__name__
     if depth == 0:
         out["all"] = [(id(i.resource), tuple(tuple(p) for p in i.path), i.start, i.end, i.width)
                       for i in mm.all_resources()]
